@@ -438,8 +438,11 @@ def judge_childq(r):
     """a `childq` answer: (tag, sequence the object holds, query, answer) - compared with the model's answer for that sequence"""
     _, childseq, q, ans = r
     parts = q.split(" ")
-    line = "q %s %s%s" % (parts[0], childseq, "".join(" " + a for a in parts[1:]))
-    spec = run_driver([line], "spec")[0]
+    if parts[0] == "html":
+        spec = run_driver(["new 0 " + childseq, "o 0 html"], "spec")[1]
+    else:
+        line = "q %s %s%s" % (parts[0], childseq, "".join(" " + a for a in parts[1:]))
+        spec = run_driver([line], "spec")[0]
     ok, why = match(ans, spec)
     return ok, "object handed back by the library holds %s; %s on it -> %s but that sequence's value is %s" % (childseq, q, str(ans)[:100], spec[:100])
 
@@ -450,11 +453,18 @@ def childq_cases(rng, n, queries, maxlen=40):
     out = []
     for _ in range(n):
         s = gen.rand_seq(rng, rng.choice(["polyampholyte", "idp", "blocky"]), rng.randint(6, maxlen))
-        how = rng.choice(["swap", "swap", "swapcharge", "shuffle", "backendshuffle", "permutant"])
+        how = rng.choice(["swap", "swap", "swapcharge", "shuffle", "backendshuffle", "permutant", "frozenshuffle", "frozenshuffle", "frozenshuffle",
+                          "kappashuffle"])
         q = rng.choice(queries)
         if how == "swap":
             i, j = rng.randrange(len(s)), rng.randrange(len(s))
             out.append("childq swap %s %d %d %s" % (s, i, j, q))
+        elif how in ("frozenshuffle", "kappashuffle"):
+            # frozen: charged positions / their right neighbours / a window / everything but one / nothing
+            ch = [i for i, c in enumerate(s) if c in "KRDE"]
+            nb = [i + 1 for i in ch if i + 1 < len(s)]
+            fr = rng.choice([ch, nb, nb, [i for i in nb if i not in ch], list(range(2, min(len(s), 6))), list(range(1, len(s))), ch[:1], []])
+            out.append("childq %s %s %s %s" % (how, s, ",".join(map(str, fr)) or "-", q))
         else:
             out.append("childq %s %s %s" % (how, s, q))
     return out
